@@ -1,11 +1,11 @@
 (* C05 (and C18) entry points of the extracted model, specification and class predicates. *)
 From Coq Require Extraction ExtrOcamlBasic ExtrOcamlString.
 From Coq Require Import List Arith.
-Require Import TT.Model.Str TT.Model.TypeParse TT.Spec.TsType TT.Model.Render TT.Model.C05Emit.
+Require Import TT.Model.Str TT.Model.TypeParse TT.Model.C05Parse TT.Spec.TsType TT.Model.Render TT.Model.C05Emit.
 Require Import TT.Spec.C05Spec TT.Spec.C05Known TT.Proofs.TypeParseProofs.
 
 Definition c05_tts (t : rty) : str := tts t.
-Definition c05_parse (s : str) : option tstruct := parse_type_structure s.
+Definition c05_parse (s : str) : option tstruct := parse_type_structure2 s.
 Definition c05_sem (t : rty) : tstruct := sem t.
 Definition c05_is_optional (t : rty) : bool := is_optional t.
 Definition c05_emit (s : site) (md : mode) (m : mapping) (t : rty) : option str := emit_type s md m t.
